@@ -1168,6 +1168,10 @@ func (m *Monitors) OnSend(sub *t_aio.SenderSubmission, sm *SentMsg) {
 			return
 		}
 		m.checkView("notify:"+sub.Task.Id, body.Promise, "")
+		m.hit("send.notify-body-judged")
+		if body.Promise.Id != sub.Task.RootPromiseId {
+			m.violate("C19,C20,C08", "dispatch:notify-carries-other-promise", fmt.Sprintf("notification %s (for promise %s) carries promise %s", sub.Task.Id, sub.Task.RootPromiseId, body.Promise.Id))
+		}
 		if body.Promise.State == promise.Pending {
 			m.violate("C01", "payload:notify-pending", fmt.Sprintf("notification %s carries a pending promise %s", sub.Task.Id, body.Promise))
 		}
